@@ -92,7 +92,12 @@ func TestC02(t *testing.T) {
 		Gen: func(t *rapid.T) HistCase {
 			o := defaultLayoutOpts()
 			o.MinArchives = 2
+			o.BigRatioPct = 4
+			o.HugePct = 3 // a finest archive of thousands of slots: batches longer than any internal chunk / page run
 			l := genLayout(t, o)
+			if l.Archives[0].Points > 2000 {
+				return genHistory(t, l, histGenOpts{MaxOps: 5, FuturePct: 5, StaleNamed: true, Reopen: true, BigBatches: true})
+			}
 			return genHistory(t, l, histGenOpts{MaxOps: 25, FuturePct: 5, StaleNamed: true, Reopen: true})
 		},
 		Run:  runC02,
